@@ -49,6 +49,11 @@ InjectOK ==
               /\ Chk("ordered", ObsTriple.lower <= ObsTriple.pred /\ ObsTriple.pred <= ObsTriple.upper)
               /\ Chk("bounded", ns.base <= ObsTriple.lower /\ ObsTriple.upper <= ns.base + TotalWeight)
               /\ Chk("pred_is_winners", ObsTriple.pred = ns.base + SumC(LAMBDA c : ns.w[c] * Ind(PM(c) > 0)))
+              \* the summary is a function of the contests and of the lists in force: the same scenario on a model object
+              \* that served an earlier round of contest-level calls with other lists gives the same triple (`called` and
+              \* `stop` are assigned by every top-level interval step of NationalSummary.tla; seeded change C08_J)
+              /\ Chk("summary_independent_of_an_earlier_round_of_calls",
+                     T.earlier.kind = "ok" /\ T.earlier.pred = T.obs.pred /\ T.earlier.lower = T.obs.lower /\ T.earlier.upper = T.obs.upper)
 
 \* the sigmoid threshold (agg_model_hard_threshold = FALSE): the summary is a real number (hundredths); the property
 \* states the ordering for every mode, the integer clauses only for the hard threshold
